@@ -49,20 +49,33 @@ theorem det_coor_eq_det_coor2 (Gt : Fin 3 → ℝ) (costth wavelength tth eta di
     Detector.det_coor Gt costth wavelength distance y_size z_size dety_center detz_center R_tilt tx ty tz
       = Detector.det_coor2 tth eta distance y_size z_size dety_center detz_center R_tilt tx ty tz := by
   have hpi : Real.pi ≠ 0 := Real.pi_ne_zero
-  have e1 : wavelength / (2 * Real.pi) * Gt 1 = (-Real.sin tth) * Real.sin eta := by
+  -- the ray direction rebuilt from the g-vector, in whatever association the source writes it: every form is `ring_nf`-equal to these
+  have e1 : Gt 1 * wavelength * (2 * Real.pi)⁻¹ = -Real.sin tth * Real.sin eta := by
     rw [h1]; field_simp
-  have e2 : wavelength / (2 * Real.pi) * Gt 2 = Real.sin tth * Real.cos eta := by
+  have e2 : Gt 2 * wavelength * (2 * Real.pi)⁻¹ = Real.sin tth * Real.cos eta := by
     rw [h2]; field_simp
-  unfold Detector.det_coor Detector.det_coor2
-  simp only []
-  rw [e1, e2, hc]
+  -- name the two components so that both sides become the same rational function of the same atoms
+  obtain ⟨a1, ha1⟩ : ∃ a1, a1 = -Real.sin tth * Real.sin eta := ⟨_, rfl⟩
+  obtain ⟨a2, ha2⟩ : ∃ a2, a2 = Real.sin tth * Real.cos eta := ⟨_, rfl⟩
+  have g1 : Gt 1 = a1 * (2 * Real.pi) / wavelength := by
+    rw [ha1, h1]; field_simp
+  have g2 : Gt 2 = a2 * (2 * Real.pi) / wavelength := by
+    rw [ha2, h2]; field_simp
+  have k1 : ∀ x : ℝ, x = -Real.sin tth * Real.sin eta ↔ x = a1 := fun x => by rw [ha1]
+  simp only [Detector.det_coor, Detector.det_coor2, hc, g1, g2]
+  rw [← ha1, ← ha2]
+  ext i
+  fin_cases i <;>
+    simp [dotProduct, Fin.sum_univ_three, Matrix.vecMul, Matrix.mulVec] <;>
+    field_simp <;> ring
 
 /-- C10, auxiliary clause: `det_v` returns the scattered-ray direction `(costth, λ/(2π) Gt₁, λ/(2π) Gt₂)`. -/
 theorem det_v_eq (Gt : Fin 3 → ℝ) (costth wavelength distance y_size z_size dety_center detz_center : ℝ)
     (R_tilt : Matrix (Fin 3) (Fin 3) ℝ) (tx ty tz : ℝ) :
     Detector.det_v Gt costth wavelength distance y_size z_size dety_center detz_center R_tilt tx ty tz
       = ![costth, wavelength / (2 * Real.pi) * Gt 1, wavelength / (2 * Real.pi) * Gt 2] := by
-  rfl
+  ext i
+  fin_cases i <;> simp [Detector.det_v] <;> first | done | ring
 
 /-- C10, clause "mapping that pixel back with detector_to_lab gives a laboratory point on the ray that
 starts at the grain position and runs along (cos 2θ, -sin 2θ sin η, sin 2θ cos η)"; the ray parameter `t`
@@ -91,10 +104,13 @@ theorem pixel_on_ray (tth eta L y_size z_size yc zc : ℝ) (R : Matrix (Fin 3) (
   set w2 : ℝ := tz + t * (Real.sin tth * Real.cos eta) with hw2
   have hw : R 0 0 * w0 + R 1 0 * w1 + R 2 0 * w2 = 0 := by
     rw [hw0, hw1, hw2]; linear_combination htD
+  -- closed form of the two pixel coordinates, whatever vector notation the generated definition uses
   have hp0 : p 0 = (R 0 1 * w0 + R 1 1 * w1 + R 2 1 * w2) / y_size + yc := by
-    simp [p, Detector.det_coor2, hw0, hw1, hw2, ht, hDdef]
+    simp only [p, Detector.det_coor2]
+    simp [dotProduct, Fin.sum_univ_three, Matrix.mulVec, Matrix.vecMul, hw0, hw1, hw2, ht, hDdef, hy] <;> ring
   have hp1 : p 1 = (R 0 2 * w0 + R 1 2 * w1 + R 2 2 * w2) / z_size + zc := by
-    simp [p, Detector.det_coor2, hw0, hw1, hw2, ht, hDdef]
+    simp only [p, Detector.det_coor2]
+    simp [dotProduct, Fin.sum_univ_three, Matrix.mulVec, Matrix.vecMul, hw0, hw1, hw2, ht, hDdef, hz] <;> ring
   have hy' : y_size * (p 0 - yc) = R 0 1 * w0 + R 1 1 * w1 + R 2 1 * w2 := by
     rw [hp0]; field_simp; ring
   have hz' : z_size * (p 1 - zc) = R 0 2 * w0 + R 1 2 * w1 + R 2 2 * w2 := by
@@ -103,15 +119,23 @@ theorem pixel_on_ray (tth eta L y_size z_size yc zc : ℝ) (R : Matrix (Fin 3) (
   have r1 := plane_recover hR' w0 w1 w2 hw 1
   have r2 := plane_recover hR' w0 w1 w2 hw 2
   simp at r0 r1 r2
-  unfold Detector.detector_to_lab
+  -- closed form of detector_to_lab (any vector notation), then the three components by linear arithmetic
+  have hlab : Detector.detector_to_lab (p 0) (p 1) L y_size z_size yc zc R =
+      ![L + (R 0 1 * (y_size * (p 0 - yc)) + R 0 2 * (z_size * (p 1 - zc))),
+        R 1 1 * (y_size * (p 0 - yc)) + R 1 2 * (z_size * (p 1 - zc)),
+        R 2 1 * (y_size * (p 0 - yc)) + R 2 2 * (z_size * (p 1 - zc))] := by
+    simp only [Detector.detector_to_lab]
+    ext i
+    fin_cases i <;> simp [Matrix.mulVec, Matrix.vecMul, dotProduct, Fin.sum_univ_three, Matrix.mul_apply] <;> ring
+  rw [hlab, hy', hz']
   ext i
   fin_cases i
-  · simp [Matrix.mul_apply, Fin.sum_univ_three, hy', hz', v]
-    rw [r0, hw0]; ring
-  · simp [Matrix.mul_apply, Fin.sum_univ_three, hy', hz', v]
-    rw [r1, hw1]; ring
-  · simp [Matrix.mul_apply, Fin.sum_univ_three, hy', hz', v]
-    rw [r2, hw2]
+  · simp [v]
+    linear_combination r0 + hw0
+  · simp [v]
+    linear_combination r1 + hw1
+  · simp [v]
+    linear_combination r2 + hw2
 
 /-- `detect_tilt` is the product Rx·Ry·Rz of the elementary rotations. -/
 theorem detect_tilt_eq (a b c : ℝ) : Tools.detect_tilt a b c = Spec.Rx a * (Spec.Ry b * Spec.Rz c) := by
